@@ -153,7 +153,7 @@ def expectation(doc, ep, vec):
                 else:
                     exp[key][p.name] = [epwork.wire_str(v)]
             except ValueError:
-                pass
+                exp.setdefault("unspecified_" + key, []).append(p.name)     # e.g. an array of objects in the query: the document does not fix its text form
     rb = o.get("requestBody")
     if rb and "content" in rb and len(rb["content"]) == 1 and "body" in vec:
         (ct, _), = rb["content"].items()
@@ -210,7 +210,7 @@ def check_request(exp, call):
     for name in exp["absent_query"]:
         if name in q:
             bad.append(f"query {name!r} sent although unset/None")
-    known = set(exp["query"]) | set(exp["absent_query"])
+    known = set(exp["query"]) | set(exp["absent_query"]) | set(exp.get("unspecified_query", []))
     if not exp.get("merged"):
         for name in q:
             if name not in known:
